@@ -143,30 +143,89 @@ theorem invoke_readOnly (h1 : cfg.listDry = true) (h2 : cfg.dryMkdir = false) (h
   | force => simp [Mode.readOnly] at hm
   | list => simp [invoke, Obs.quiet]
   | summary => simp [invoke, Obs.quiet]
-  | listJson => simp [invoke, listJson_dry cfg H pr h1]
+  | listJson =>
+    simp only [invoke]
+    split
+    · exact ⟨rfl, rfl⟩
+    · simp [listJson_dry cfg H pr h1]
   | status =>
     simp only [invoke]
-    split <;> simp
+    split
+    · simp
+    · split <;> simp
   | dry =>
     simp only [invoke]
     split
     · simp
     · split
-      · simp
-      · simp only [isUpToDate_dry]
-        exact runBody_dry cfg H pr h2 h3 i _ e s
+      · exact ⟨rfl, rfl⟩
+      · split
+        · simp
+        · simp only [isUpToDate_dry]
+          exact runBody_dry cfg H pr h2 h3 i _ e s
 
 
 /-! ### unfolding `invoke` -/
 
-theorem invoke_run {i : Nat} {t : Task} (h : pr.tasks[i]? = some t) (e : Env) (s : State) :
+/-- with `G` set no entry fails to expand: the check returns no error -/
+theorem gensErr_gset (guard : List Nat) (fs : FS) (gs : List Pat) (k : Nat) : gensErr true guard fs gs k = false := by
+  induction gs generalizing k with
+  | nil => rfl
+  | cons g gs ih =>
+    simp only [gensErr, Bool.not_true, Bool.false_and, Bool.false_eq_true, if_false, ih]
+    split <;> simp
+
+theorem checkErr_gset (t : Task) (e : Env) (fs : FS) (hg : e.gset = true) : checkErr t e fs = false := by
+  simp [checkErr, hg, gensErr_gset]
+
+theorem checkErr_timestamp {t : Task} (e : Env) (fs : FS) (h : t.method = .timestamp) : checkErr t e fs = false := by
+  simp [checkErr, h]
+
+/-- only a checksum task's check can return an error -/
+theorem checkErr_method {t : Task} {e : Env} {fs : FS} (h : checkErr t e fs = true) : t.method = .checksum := by
+  simp only [checkErr, Bool.and_eq_true, decide_eq_true_eq] at h
+  exact h.1.1
+
+/-- a run whose check returns an error: nothing runs; the fixed tree leaves the state alone -/
+theorem invoke_run_err {i : Nat} {t : Task} (h : pr.tasks[i]? = some t) (e : Env) (s : State)
+    (hce : checkErr t e s.files = true) :
+    invoke cfg H pr i .run e s = (s, ⟨.checkError, false, [], []⟩) := by
+  simp only [invoke, h, hce, if_true]
+
+theorem invoke_run {i : Nat} {t : Task} (h : pr.tasks[i]? = some t) (e : Env) (s : State)
+    (hce : checkErr t e s.files = false) :
+    invoke cfg H pr i .run e s =
+      if ((isUpToDate H pr t false e.now s).2 && !interrupted t e) = true then ((isUpToDate H pr t false e.now s).1, ⟨.ok, true, [], []⟩)
+      else runBody cfg H pr i t false e (isUpToDate H pr t false e.now s).1 := by
+  simp only [invoke, h, hce, Bool.false_eq_true, if_false]
+
+theorem and_left_true {a b : Bool} (h : (a && b) = true) : a = true := by
+  cases a <;> simp_all
+
+theorem and_false_of_left {a b : Bool} (h : a = false) : (a && b) = false := by
+  simp [h]
+
+/-- an ordinary invocation: not cancelled by a failing sibling, every `generates` entry can be expanded -/
+def Plain (e : Env) : Prop := e.cancelled = false ∧ e.gset = true
+
+instance (e : Env) : Decidable (Plain e) := by unfold Plain; infer_instance
+
+/-- a run that does not end with the error of the check: the check returned none -/
+theorem run_noerr_of_exit {i : Nat} {t : Task} (h : pr.tasks[i]? = some t) (e : Env) (s : State)
+    (hx : (invoke cfg H pr i .run e s).2.exit ≠ .checkError) : checkErr t e s.files = false := by
+  cases hce : checkErr t e s.files with
+  | false => rfl
+  | true => rw [invoke_run_err cfg H pr h e s hce] at hx; exact absurd rfl hx
+
+/-- an ordinary run: the verdict of the check alone decides -/
+theorem invoke_run_plain {i : Nat} {t : Task} (h : pr.tasks[i]? = some t) (e : Env) (hp : Plain e) (s : State) :
     invoke cfg H pr i .run e s =
       if (isUpToDate H pr t false e.now s).2 then ((isUpToDate H pr t false e.now s).1, ⟨.ok, true, [], []⟩)
       else runBody cfg H pr i t false e (isUpToDate H pr t false e.now s).1 := by
-  simp [invoke, h]
+  simp [invoke, h, interrupted, hp.1, checkErr_gset t e s.files hp.2]
 
 theorem invoke_force {i : Nat} {t : Task} (h : pr.tasks[i]? = some t) (e : Env) (s : State) :
-    invoke cfg H pr i .force e s = runBody cfg H pr i t false e s := by
+    invoke cfg H pr i .force e s = runBody cfg H pr i t false e (forceStart H pr t e s) := by
   simp [invoke, h]
 
 theorem isUpToDate_sources {t : Task} (h : t.sources.isEmpty = false) (dry : Bool) (now : Nat) (s : State) :
@@ -216,6 +275,33 @@ theorem foldl_max_lt (l : List Nat) (a x : Nat) (ha : a < x) (hl : ∀ m ∈ l, 
     · exact Nat.max_lt.mpr ⟨ha, hl b (by simp)⟩
     · intro m hm; exact hl m (by simp [hm])
 
+/-! ### the verdict does not depend on the mode -/
+
+/-- **the verdict of the up-to-date check is the same in every mode**: `dry` only decides whether the
+check may WRITE (`--status`, `--dry` and `--list --json` run it dry, a normal run does not) -/
+theorem isUpToDate_verdict_dry (t : Task) (now : Nat) (s : State) :
+    (isUpToDate H pr t true now s).2 = (isUpToDate H pr t false now s).2 := by
+  have hsrc : (srcCheck H pr t true now s).2 = (srcCheck H pr t false now s).2 := by
+    unfold srcCheck
+    cases t.method with
+    | checksum => simp only [sumCheck_result]
+    | timestamp => simp only [tsCheck_result]
+    | none => rfl
+  unfold isUpToDate
+  simp only
+  cases t.sources.isEmpty <;> cases t.status.isEmpty <;> simp [hsrc]
+
+/-- `--list --json` with the repaired wiring (`listDry`): the bits are the verdicts of the checks on the
+state it started from, task by task -/
+theorem listJson_bits (h : cfg.listDry = true) (now : Nat) (ts : List Task) (s : State) (acc : List Bool) :
+    (listJson cfg H pr now ts s acc).2 = acc ++ ts.map (fun t => (isUpToDate H pr t true now s).2) := by
+  induction ts generalizing acc with
+  | nil => simp [listJson]
+  | cons t ts ih =>
+    simp only [listJson, h, isUpToDate_dry]
+    rw [ih]
+    simp
+
 /-! ### the body -/
 
 /-- a body that exits `ok` went through the whole command loop and left the stores alone -/
@@ -234,18 +320,33 @@ theorem runBody_ok (i : Nat) (t : Task) (e : Env) (s : State)
     · rename_i hl; simp [hl] at h
     · rename_i hl; simp [hl] at h
 
-theorem cmdLoop_clean (e : Env) (hk : e.killAt = none) (hf : e.failAt = none) (cs : List Cmd)
+theorem cmdLoop_clean (e : Env) (ign : Bool) (hk : e.killAt = none) (hf : e.failAt = none) (hcan : e.cancelled = false) (cs : List Cmd)
     (hn : ∀ c ∈ cs, c.need = none) (k : Nat) (fs : FS) (ran : List Nat) :
-    (cmdLoop e cs k fs ran).2.1 = ran ++ List.range' k cs.length ∧ (cmdLoop e cs k fs ran).2.2 = .done := by
+    (cmdLoop e ign cs k fs ran).2.1 = ran ++ List.range' k cs.length ∧ (cmdLoop e ign cs k fs ran).2.2 = .done := by
   induction cs generalizing k fs ran with
   | nil => simp [cmdLoop]
   | cons c cs ih =>
     have hc : c.blocked fs = false := by simp [Cmd.blocked, hn c (by simp)]
-    simp only [cmdLoop, hk, hf, hc]
+    simp only [cmdLoop, hk, hf, hc, hcan]
     have := ih (fun x hx => hn x (by simp [hx])) (k + 1) (applyWrites fs c.writes e.now) (ran ++ [k])
     simp only [reduceCtorEq, if_false]
     rw [this.1, this.2]
     simp [List.range'_succ]
+
+/-- the loop of a task with `ignore_error` (every failing exit status is swallowed): every command
+starts, the loop ends `done` — whichever command fails -/
+theorem cmdLoop_ignore_all (e : Env) (hk : e.killAt = none) (hcan : e.cancelled = false) (cs : List Cmd)
+    (hn : ∀ c ∈ cs, c.need = none) (k : Nat) (fs : FS) (ran : List Nat) :
+    (cmdLoop e true cs k fs ran).2.1 = ran ++ List.range' k cs.length ∧ (cmdLoop e true cs k fs ran).2.2 = .done := by
+  induction cs generalizing k fs ran with
+  | nil => simp [cmdLoop]
+  | cons c cs ih =>
+    have hc : c.blocked fs = false := by simp [Cmd.blocked, hn c (by simp)]
+    have hrec := fun fs' => ih (fun x hx => hn x (by simp [hx])) (k + 1) fs' (ran ++ [k])
+    simp only [cmdLoop, hk, hc, hcan, Cmd.ignorable, Bool.true_or, reduceCtorEq, if_false, if_true, Bool.false_eq_true]
+    split
+    · rw [(hrec fs).1, (hrec fs).2]; simp [List.range'_succ]
+    · rw [(hrec _).1, (hrec _).2]; simp [List.range'_succ]
 
 /-! ### histories -/
 
